@@ -235,8 +235,6 @@ theorem makeScaffoldName_eq (n : Namer) (scName : Str) (rows : List Row) (tags :
     all_goals (try rfl)
     all_goals (split <;> (try simp only [*, getSet_primary]) <;> try rfl)
     all_goals (split <;> (try simp only [*]) <;> try rfl)
-    all_goals trace_state
-    all_goals sorry
 
 theorem bind_eq_ok {α β} (x : R α) (f : α → R β) (b : β) :
     (x >>= f) = .ok b ↔ ∃ a, x = .ok a ∧ f a = .ok b := by
